@@ -497,24 +497,32 @@ func (p *Prog) modeEdge(e CondEdge) (nocopy bool, ok bool) {
 		return false, false
 	}
 	base, neg := condOf(iff.Cond)
-	truth := (e.Succ == 0) != neg
-	s := p.Sym(base)
-	if s.Op == "param" {
-		s = p.upParam(s, 0) // the mode flag handed to a helper as an argument
+	// a mode test extracted into an expression function (`dsc.waitsRelease()`) denotes its body
+	s := p.SymX(base)
+	for s.Op == "un" && s.Name == "!" {
+		s, neg = s.Args[0], !neg
 	}
-	if _, path, okp := s.FieldPath(); okp && strings.Join(path, ".") == "opts.NoCopy" {
+	truth := (e.Succ == 0) != neg
+	up := func(x *Sym) *Sym {
+		x = x.StripConv()
+		if x.Op == "param" {
+			x = p.upParam(x, 0).StripConv() // the flag / channel handed to a helper as an argument
+		}
+		return x
+	}
+	if _, path, okp := up(s).FieldPath(); okp && strings.Join(path, ".") == "opts.NoCopy" {
 		return truth, true
 	}
-	if bo, isB := base.(*ssa.BinOp); isB && isNilConst(bo.Y) {
-		xs := p.Sym(bo.X)
-		if xs.StripConv().Op == "param" {
-			xs = p.upParam(xs, 0) // the Released channel handed to a helper as an argument
+	if s.Op == "bin" && (s.Name == "!=" || s.Name == "==") {
+		l, r := s.Args[0], s.Args[1]
+		if l.Op == "const" && l.Name == "nil" {
+			l, r = r, l
 		}
-		if _, path, okp := xs.StripConv().FieldPath(); okp && strings.Join(path, ".") == "opts.Released" {
-			switch bo.Op {
-			case token.NEQ:
-				return truth, true
-			case token.EQL:
+		if r.Op == "const" && r.Name == "nil" {
+			if _, path, okp := up(l).FieldPath(); okp && strings.Join(path, ".") == "opts.Released" {
+				if s.Name == "!=" {
+					return truth, true
+				}
 				return !truth, true
 			}
 		}
